@@ -334,6 +334,9 @@ func (x *Exec) applyContract(st *State, name string, c *Contract, f *ssa.Functio
 	penv.post = true
 	x.bindResults(penv, c, f, r, rt)
 	for _, e := range c.Ensures {
+		if !x.wantsClause(e) {
+			continue
+		}
 		st.assume(x.trBool(penv, e.E))
 	}
 	return r
@@ -372,6 +375,15 @@ func (x *Exec) inlineDef(env *Env, name string, c *Contract, rt types.Type) Val 
 		return Val{Tup: rs, Ty: rt}
 	}
 	return rs[0]
+}
+
+// wantsClause: a callee postcondition tagged with a property is assumed only
+// in functions that serve that property (keeps unrelated detail out of the context).
+func (x *Exec) wantsClause(e *Clause) bool {
+	if e.Prop == "" || x.c == nil {
+		return true
+	}
+	return hasProp(x.c, e.Prop)
 }
 
 func (x *Exec) isFrozen(h string) bool {
